@@ -68,9 +68,9 @@ pub struct PointCloud {
 impl PointCloud {
     pub(crate) fn vec_from_document(document: &Document) -> Result<Vec<Self>> {
         let mut pointclouds = Vec::new();
-        if let Some(data3d_node) = document.descendants().find(|n| n.has_tag_name("data3D")) {
+        if let Some(data3d_node) = document.descendants().find(|n| xml::has_name(n, "data3D")) {
             for n in data3d_node.children() {
-                if n.has_tag_name("vectorChild") && n.attribute("type") == Some("Structure") {
+                if xml::has_name(&n, "vectorChild") && n.attribute("type") == Some("Structure") {
                     let pointcloud = Self::from_node(&n)?;
                     pointclouds.push(pointcloud);
                 }
@@ -95,20 +95,26 @@ impl PointCloud {
         let acquisition_start = xml::opt_date_time(node, "acquisitionStart")?;
         let acquisition_end = xml::opt_date_time(node, "acquisitionEnd")?;
         let transform = xml::opt_transform(node, "pose")?;
-        let cartesian_bounds = node.children().find(|n| n.has_tag_name("cartesianBounds"));
-        let spherical_bounds = node.children().find(|n| n.has_tag_name("sphericalBounds"));
-        let index_bounds = node.children().find(|n| n.has_tag_name("indexBounds"));
-        let intensity_limits = node.children().find(|n| n.has_tag_name("intensityLimits"));
-        let color_limits = node.children().find(|n| n.has_tag_name("colorLimits"));
+        let cartesian_bounds = node
+            .children()
+            .find(|n| xml::has_name(n, "cartesianBounds"));
+        let spherical_bounds = node
+            .children()
+            .find(|n| xml::has_name(n, "sphericalBounds"));
+        let index_bounds = node.children().find(|n| xml::has_name(n, "indexBounds"));
+        let intensity_limits = node
+            .children()
+            .find(|n| xml::has_name(n, "intensityLimits"));
+        let color_limits = node.children().find(|n| xml::has_name(n, "colorLimits"));
 
         // Read optional vector of original GUIDs
         let original_guids = if let Some(original_guids_node) =
-            node.children().find(|n| n.has_tag_name("originalGuids"))
+            node.children().find(|n| xml::has_name(n, "originalGuids"))
         {
             let mut guids = Vec::new();
             for n in original_guids_node.children() {
                 if !n.is_element()
-                    || !n.has_tag_name("vectorChild")
+                    || !xml::has_name(&n, "vectorChild")
                     || n.attribute("type") != Some("String")
                 {
                     continue;
@@ -122,7 +128,7 @@ impl PointCloud {
 
         let points_tag = node
             .children()
-            .find(|n| n.has_tag_name("points") && n.attribute("type") == Some("CompressedVector"))
+            .find(|n| xml::has_name(n, "points") && n.attribute("type") == Some("CompressedVector"))
             .invalid_err("Cannot find 'points' tag inside 'data3D' child")?;
         let file_offset = points_tag
             .attribute("fileOffset")
@@ -136,7 +142,7 @@ impl PointCloud {
             .invalid_err("Cannot parse 'recordCount' attribute value as u64")?;
         let prototype_tag = points_tag
             .children()
-            .find(|n| n.has_tag_name("prototype") && n.attribute("type") == Some("Structure"))
+            .find(|n| xml::has_name(n, "prototype") && n.attribute("type") == Some("Structure"))
             .invalid_err("Cannot find 'prototype' child in 'points' tag")?;
 
         // Parse point prototype records
